@@ -59,6 +59,7 @@ pub struct Build {
     pub slave_only: bool,
     pub master_only: Vec<bool>,
     pub priority1: u8,
+    pub priority2: u8,
     pub clock_class: u8,
     pub log_announce: i8,
     pub log_sync: i8,
@@ -87,6 +88,7 @@ impl Build {
             slave_only: false,
             master_only: vec![],
             priority1: 128,
+            priority2: 128,
             clock_class: 248,
             log_announce: 0,
             log_sync: 0,
@@ -106,6 +108,7 @@ impl Build {
     pub fn build(&self) -> Result<Built, PanicInfo> {
         let mut inst = default_instance(clock_id(self.id));
         inst.priority_1 = self.priority1;
+        inst.priority_2 = self.priority2;
         inst.clock_quality.clock_class = self.clock_class;
         inst.path_trace = self.path_trace;
         inst.slave_only = self.slave_only;
